@@ -463,12 +463,21 @@ class NumpyModel:
                 if ga[0] == 'FDIFF' and ga[1] in ('W2', 'W1'):
                     interp.emit('unreduced_diff', node, arg=a)
                 return ('CART', gb[1], 'pos' if ga[0] != 'FDIFF' else 'vec')
-            if gb is not None and gb[0] == 'METRIC':
+            if gb is not None and gb[0] in ('METRIC', 'METRIC_T'):
                 return ('COV', ga)
             if gb is None:
                 return None
         if ga is not None and ga[0] == 'COV' and is_fractional(gb):
             return ('DIST2',)
+        if ga is not None and ga[0] == 'LATMAT' and gb is not None and gb[0] == 'LATMAT':
+            # rows of the matrix are the lattice vectors: the metric tensor is M M^T (not M^T M)
+            at, bt = bool(a.transposed), bool(b.transposed)
+            if not at and bt:
+                return ('METRIC',)
+            if at and not bt:
+                interp.emit('wrong_metric', node, a=a, b=b)
+                return ('METRIC_T',)
+            return None
         if ga is not None and ga[0] == 'LATMAT':
             return None
         if is_cart(ga) and gb is None:
